@@ -280,7 +280,7 @@ def layer_exhaustive(ctx):
                     for enames in itertools.permutations(names + ['new1'], ne):
                         work.append((list(zip(snames, skinds)), list(enames)))
     rng = ctx.rng
-    step = 1 if not ctx.quick else 6
+    step = 1 if not ctx.quick else 2
     for wi, (statics, enames) in enumerate(work):
         if wi % ctx.nshards != ctx.shard or (wi // ctx.nshards) % step:
             continue
@@ -358,7 +358,7 @@ def layer_random(ctx, n):
 def run(ctx):
     monitors.install(ctx, tokalg=False)
     layer_exhaustive(ctx)
-    layer_random(ctx, 300 if ctx.quick else 5000)
+    layer_random(ctx, 1000 if ctx.quick else 5000)
 
 
 def replay(data):
